@@ -1365,19 +1365,19 @@ func marshalDate(info TypeInfo, value interface{}) ([]byte, error) {
 		return nil, nil
 	case int64:
 		timestamp = v
-		return encDate(timestamp), nil
+		return encDate(timestamp)
 	case time.Time:
 		if v.IsZero() {
 			return []byte{}, nil
 		}
 		timestamp = int64(v.UTC().Unix()*1e3) + int64(v.UTC().Nanosecond()/1e6)
-		return encDate(timestamp), nil
+		return encDate(timestamp)
 	case *time.Time:
 		if v.IsZero() {
 			return []byte{}, nil
 		}
 		timestamp = int64(v.UTC().Unix()*1e3) + int64(v.UTC().Nanosecond()/1e6)
-		return encDate(timestamp), nil
+		return encDate(timestamp)
 	case string:
 		if v == "" {
 			return []byte{}, nil
@@ -1387,7 +1387,7 @@ func marshalDate(info TypeInfo, value interface{}) ([]byte, error) {
 			return nil, marshalErrorf("can not marshal %T into %s, date layout must be '2006-01-02'", value, info)
 		}
 		timestamp = int64(t.UTC().Unix()*1e3) + int64(t.UTC().Nanosecond()/1e6)
-		return encDate(timestamp), nil
+		return encDate(timestamp)
 	}
 
 	if value == nil {
@@ -1398,13 +1398,16 @@ func marshalDate(info TypeInfo, value interface{}) ([]byte, error) {
 
 // encDate encodes the day that holds the instant given in milliseconds since the
 // epoch. Days are counted with floor, so an instant before 1970 belongs to the day
-// it is in, not to the following one.
-func encDate(timestamp int64) []byte {
+// it is in, not to the following one. The column holds 2^32 days centred on the epoch.
+func encDate(timestamp int64) ([]byte, error) {
 	days := timestamp / millisecondsInADay
 	if timestamp%millisecondsInADay < 0 {
 		days--
 	}
-	return encInt(int32(days + int64(1<<31)))
+	if days < math.MinInt32 || days > math.MaxInt32 {
+		return nil, marshalErrorf("marshal date: day %d out of range", days)
+	}
+	return encInt(int32(days + int64(1<<31))), nil
 }
 
 func unmarshalDate(info TypeInfo, data []byte, value interface{}) error {
